@@ -18,7 +18,8 @@ TECHNIQUE = "runtime metamorphic monitor: program content under combined layout 
 RULE = ("valid base scripts (all features) x combinations of: end-of-line comments (with/without preceding space), own-line comments and blank "
         "lines (column 0 or <=3 spaces) before the metadata / between top-level items / between loop-body statements, runs of 1-3 spaces at "
         "token boundaries and line ends (not next to indentation), uniform LF/CRLF/CR, tab <-> four spaces per indented line, with/without final "
-        "newline; non-trivial = >=3 kinds of edit on a base with a loop or an array; distinct by SHA-1 of the variant")
+        "newline; non-trivial = >=3 kinds of edit on a base with a loop or an array; distinct by SHA-1 of the variant"
+        '; comments ending in a backslash; an ungrammatical variant with an unchanged token stream is a violation')
 BUDGET = {"quick": 1200, "thorough": 16000}   # base scripts; several variants each
 VARIANTS = {"quick": 4, "thorough": 8}
 MIN_NONTRIVIAL = {"quick": 600, "thorough": 6000}
